@@ -309,7 +309,13 @@ def run_case(case):
                         G1.add_edges_from(G.edges)
                         H.add_nodes_from(o2)
                         H.add_edges_from(H0.edges)
-                        mp = rm.get_relabel_map(G1, H)
+                        if r.random() < 0.3:
+                            # argument form: adjacency matrices instead of graphs (positions are then the labels)
+                            G1, H = nx.to_numpy_array(G), nx.to_numpy_array(H0)
+                            mp = rm.get_relabel_map(G1, H)
+                            H = H0
+                        else:
+                            mp = rm.get_relabel_map(G1, H)
                         mp = {a: b for a, b in mp.items() if a != -1}
                         if sorted(mp) != list(range(n)) or sorted(mp.values()) != list(range(n)) or any(H.has_edge(mp[u], mp[v]) != G.has_edge(u, v) for u in range(n) for v in range(u + 1, n)):
                             ctx.violate("K_iso_map_wrong", step, f"get_relabel_map returned {mp}, not an isomorphism", {"call": "get_relabel_map"})
